@@ -14,12 +14,18 @@
   A confidence is *valid* when its level `l` satisfies `0 < l < 1` (what every constructor of the
   crate enforces; `validLevel_iff`).
 
+  `ci_wilson` clamps its two bounds into `[0, 1]` (`(mean - span).max(0.)`, `(mean + span).min(1.)`)
+  before it builds the interval.  In exact arithmetic the clamp never acts on the domain (both roots
+  are proportions, `bounds_in_unit`), so the statements below are about `centre ∓ span` themselves;
+  what the clamp guarantees on *every* carrier `RR fl` is `ciWilson_ok_in_unit` (§4).
+
   What the sign of the oracle's answer does (the model does not know that `z` is a quantile):
   a two-sided request needs `0 ≤ z` for `Interval::new` to accept `centre - span ≤ centre + span`;
   with `z < 0` it answers `Err(IntervalError::InvalidBounds)`.  One-sided Wilson requests are
   accepted for every real `z`.
 -/
 import StatsCI.Lemmas.Wilson
+import StatsCI.Lemmas.WilsonRound
 
 namespace StatsCI.C02
 open StatsCI Proportion Wilson
@@ -206,6 +212,23 @@ theorem ciWilson_spec (crit : Crit Rex) (conf : Confidence Rex) (h0 : 0 < conf.l
   | upper l => exact ⟨_, _, hk', b1, b2, le_refl _, Or.inr ⟨rfl, r1⟩, Or.inl ⟨rfl, rfl⟩⟩
   | lower l => exact ⟨_, _, hk', le_refl _, b3, b4, Or.inl ⟨rfl, rfl⟩, Or.inr ⟨rfl, r2⟩⟩
 
+/-- the guarantee of the clamp (`(mean - span).max(0.)`, `(mean + span).min(1.)`), on every carrier
+    `RR fl` — the reals with an arbitrary function `fl` applied after every arithmetic operation,
+    no hypothesis on `fl`; `fl = id` is `Rex` —, for every oracle, every confidence (valid or not)
+    and all counts: an `Ok` result of `ciWilson` is a two-sided interval `[lo, hi]` with
+    `0 ≤ lo ≤ hi ≤ 1` -/
+theorem ciWilson_ok_in_unit {fl : ℝ → ℝ} (crit : Crit (RR fl)) (conf : Confidence (RR fl))
+    (n k : ℕ) (iv : Interval (RR fl)) (h : ciWilson crit conf n k = .ok iv) :
+    ∃ lo hi : RR fl, iv = .twoSided lo hi ∧ 0 ≤ lo.val ∧ lo.val ≤ hi.val ∧ hi.val ≤ 1 :=
+  WilsonRound.ciWilson_ok_unit crit conf n k iv h
+
+/-- non-vacuity of `ciWilson_ok_in_unit`: `Ok` results exist (exact arithmetic, `ciWilson_spec`) -/
+example : ∃ iv, ciWilson (constCrit 1.96 : Crit Rex) (.twoSided ⟨0.95⟩) 100 30 = .ok iv := by
+  obtain ⟨lo, hi, h, _⟩ := ciWilson_spec (constCrit 1.96) (.twoSided ⟨0.95⟩)
+    (by norm_num [Confidence.level]) (by norm_num [Confidence.level]) 100 30 (by omega) (by omega)
+    (fun _ => by norm_num [zOf, constCrit])
+  exact ⟨_, h⟩
+
 /-- non-vacuity: a valid two-sided confidence, counts on the domain, an oracle answering `z = 1.96` -/
 example : ∃ (crit : Crit Rex) (conf : Confidence Rex) (n k : ℕ), 0 < conf.level.val ∧
     conf.level.val < 1 ∧ 2 ≤ k ∧ k + 2 ≤ n ∧ (conf.isTwoSided = true → 0 ≤ zOf crit conf) :=
@@ -304,13 +327,13 @@ theorem panic_iff (crit : Crit Rex) (conf : Confidence Rex) (n k : ℕ) (hk : 2 
   · cases h : probOk conf.quantile
     · simp [ciWilson, a, b, c, zValue, h]
     · simp only [ciWilson, a, b, c, if_false, zValue, h, if_true, Outcome.bind_ok]
-      simpa using finish_ne_panic conf _ _ _
+      simpa using WilsonRound.finishWilson_ne_panic conf _ _ _
   · intro t
     cases h : probOk conf.quantile
     · simp [ciWilson, a, b, c, zValue, h]
       intro h; exact h.symm
     · simp only [ciWilson, a, b, c, if_false, zValue, h, if_true, Outcome.bind_ok]
-      intro h'; exact absurd h' (finish_ne_panic conf _ _ _)
+      intro h'; exact absurd h' (WilsonRound.finishWilson_ne_panic conf _ _ _)
 
 /-- the count tests do not look at the confidence: for *every* confidence, valid or not -/
 theorem count_errors_any_conf (crit : Crit Rex) (conf : Confidence Rex) (n k : ℕ) :
